@@ -1,12 +1,13 @@
 (* Props/C11.v — tmux pass-through wrapping is exactly invertible.
    Only statements; every proof is [exact <lemma from Proofs/>]. *)
 From Coq Require Import NArith List Bool.
-From Tup Require Import Lib.ByteStr Lib.PyFmt Gen.TmuxGen Model.TmuxTemplate Spec.TmuxSpec Proofs.TmuxProofs.
+From Tup Require Import Lib.ByteStr Lib.PyFmt Lib.CommandTypes Gen.TmuxGen Model.TmuxTemplate Model.GraphicsCommand Spec.TmuxSpec
+  Proofs.TmuxProofs Proofs.CommandProofs.
 Import ListNotations.
 Open Scope N_scope.
 
 (* For every number of layers n and every command content c without ESC (contents are
-   "k=v,...;base64": see C11_contents_have_no_esc in Props/C06.v), the bytes the library emits
+   "k=v,...;base64": C06_contents_have_no_esc in Props/C06.v, used in C11_commands below), the bytes the library emits
    with n layers configured are unwrapped by tmux's rule, n times, to exactly the bytes it
    emits with no tmux configured. *)
 Theorem C11_unwrap_n : forall (n : nat) (c : list N), has_byte 27 c = false ->
@@ -38,6 +39,13 @@ Theorem C11_detect_iff : forall env term,
      (contains_sub screen_b term = true \/ contains_sub tmux_b term = true)).
 Proof. intros env term. split; apply detect_with_iff; reflexivity. Qed.
 Print Assumptions C11_detect_iff.
+
+(* for every command of the library (every type, any payload): n layers unwrap to the 0-layer bytes *)
+Theorem C11_commands : forall (n : nat) (c : command), payload_ok c ->
+  exists out out0, emit n (content_bytes c) = Some out /\ emit 0 (content_bytes c) = Some out0 /\
+                   TmuxSpec.layers_ok n out out0 = true.
+Proof. intros n c H. apply layers_ok_emit. apply content_no_esc. exact H. Qed.
+Print Assumptions C11_commands.
 
 (* non-vacuity: a real command content meets the hypothesis, and 2 layers unwrap *)
 Example C11_nonvacuous :
